@@ -540,7 +540,10 @@ func (g *adaptive) step() bool {
 		g.feat["type"] = true
 		return g.emit(psref.TX("dup"), psref.TX("type"))
 	case 19: // well-known objects
-		switch g.draw(4, "wellknown") {
+		switch g.draw(5, "wellknown") {
+		case 4:
+			g.feat["internaldict"] = true
+			return g.emit(psref.TI(1183615869), psref.TX("internaldict"))
 		case 0:
 			return g.emit(psref.TX("StandardEncoding"), psref.TI(int64(g.draw(256, "enccode"))), psref.TX("get"))
 		case 1:
@@ -674,6 +677,8 @@ func (g *adaptive) violation() string {
 		cat(one(psref.TL("X"), psref.TL("NoCategory"), psref.TX("findresource"))),
 		cat(one(psref.TL("NoInstance"), psref.TL("Font"), psref.TX("findresource"))),
 		cat(one(psref.TL("X"), psref.TI(1), psref.TL("NoCategory"), psref.TX("defineresource"))),
+		cat(one(psref.TI(1183615868), psref.TX("internaldict"))),
+		cat(one(psref.TL("x"), psref.TX("internaldict"))),
 		// missing mark
 		cat(one(psref.TX("exit"))),
 	}
